@@ -207,8 +207,15 @@ def rand_value(rng):
     return rng.choice([TRUE, NONE, FALSE])
 
 
+# names that mean something to browsers / frameworks: the rules do not depend on what a name means
+SEMANTIC_NAMES = ["aria_hidden", "aria-expanded", "aria_busy_", "aria_label", "data_toggle", "data-bs-target", "hidden", "checked", "disabled", "selected", "role", "tabindex",
+                  "contenteditable", "draggable", "spellcheck", "translate", "autocomplete", "value", "title", "href", "src", "xmlns", "xlink:href", "xml_lang", "http_equiv",
+                  "accept_charset", "className", "htmlFor", "on_click", "onclick", "style", "for", "class", "id", "name", "type", "async_", "defer", "is_", "slot", "part"]
+
+
 def rand_case(rng):
-    names = RAW_NAMES if rng.random() < 0.7 else RAW_NAMES[:5]
+    r_ = rng.random()
+    names = RAW_NAMES if r_ < 0.5 else RAW_NAMES[:5] if r_ < 0.7 else SEMANTIC_NAMES
 
     def pairs(n):
         return [[rng.choice(names), rand_value(rng)] for _ in range(n)]
@@ -219,6 +226,8 @@ def rand_case(rng):
     for _ in range(rng.randint(0, 10) if rng.random() < 0.6 else 0):
         if rng.random() < 0.5:
             ops.append({"op": "update", "args": [{"d": pairs(rng.randint(0, 3))} for _ in range(rng.randint(0, 2))], "kw": pairs(rng.randint(0, 3))})
+            if rng.random() < 0.15:
+                ops[-1]["self_at"] = rng.randint(0, 2)
         else:
             ops.append({"op": "setitem", "name": rng.choice(names), "v": rand_value(rng)})
     return {"name": rng.choice(["div", "span", "x-y"]), "via": rng.choice(["fn", "Tag"]), "ctor": {"args": args, "kw": kw}, "ops": ops,
